@@ -12,4 +12,4 @@ CONSTANTS
   Replays <- NoReplays
 INIT Init
 NEXT Next
-INVARIANTS TypeOK OnlyAuthentic NoVerifierRejects RealNotBypassed RejectKeepsState Complete Monotone CacheIsLastAccepted KnownIsPresented EmitHist
+INVARIANTS TypeOK OnlyAuthentic NoVerifierRejects RealNotBypassed RejectKeepsState Complete Monotone CacheIsLastAccepted KnownIsPresented FloorIsOfColdKey ProbesTellFloor CounterFloorSurvivesChurn EmitHist
